@@ -246,3 +246,23 @@ func (s *scen) qiSpendDenom(owner *core.VKey, d uint8, nth int, toAddr []byte, o
 	}
 	return nil
 }
+
+// qiSpendSplit spends the first unlocked output of denomination d owned by `owner` into two outputs.
+func (s *scen) qiSpendSplit(owner *core.VKey, d uint8, to1 common.Address, d1 uint8, to2 common.Address, d2 uint8) *types.Transaction {
+	utxos, err := core.VScanUtxos(s.n.DB[2])
+	if err != nil {
+		return nil
+	}
+	height := s.n.Heads[2].NumberU64(2) + 1
+	for _, u := range utxos {
+		if string(u.Entry.Address) != string(owner.Addr.Bytes()) || u.Entry.Denomination != d {
+			continue
+		}
+		if u.Entry.Lock != nil && u.Entry.Lock.Uint64() > height {
+			continue
+		}
+		return core.VQiTx(s.n.ChainID(), core.VZoneLoc, []core.VQiIn{{Hash: u.Hash, Index: u.Index, Key: owner}},
+			[]core.VQiOut{{Denom: d1, Addr: to1}, {Denom: d2, Addr: to2}}, nil, owner)
+	}
+	return nil
+}
